@@ -44,9 +44,11 @@ def programs(ctx):
             p.make(1, 'Money', F(j * 37, 100), 'Z2')
             p.make(2, 'A', F(j % 5 + 1), 'a')
             p.make(3, 'A', F(1, 2), 'ka', 'frac')
-            p.make(4, 'A', F(j, 3), 'ha', 'frac')
+            p.make(4, 'A', F(j % 3 + 1, 3), 'ha', 'frac')      # ratio lists recur with other amounts
             p.alloc(1, [2, 3, 4], True)
             p.alloc(1, [2, 3, 4], False)
+            p.make(1, 'Money', F(j * 53 + 1, 100), 'Z2')      # another amount, the very same ratios again
+            p.alloc(1, [2, 3, 4], True)
             p.make(5, 'D', F(j, 8), 'd')
             p.make(6, 'D', F(3, 80), 'kd')
             p.make(1, 'D', F(j * 5, 8), 'bd')
